@@ -74,6 +74,9 @@ def run(ctx: Ctx, rep: Report) -> None:
     from ..rules.paramflow import rule_paramflow
     for name in ('unfold', 'unfold_all'):
         rule_paramflow(ctx, rep, f'bqskit/ir/circuit.py:Circuit.{name}', {})
+    # renumbering applies the permutation in one direction to every view
+    from .permdir import permdir
+    permdir(ctx, rep)
 
 
 # ---------------------------------------------------------------------------
